@@ -37,6 +37,7 @@ func main() {
 	prop := fs.String("prop", "", "property id")
 	tier := fs.String("tier", "quick", "quick|thorough")
 	locks := fs.Bool("locks", false, "lock discipline obligations")
+	interfere := fs.Bool("interfere", false, "model interference on atomic_only locations")
 	workers := fs.Int("j", 10, "parallel obligations")
 	cpuprof := fs.String("cpuprofile", "", "write cpu profile")
 	fs.Parse(os.Args[2:])
@@ -114,7 +115,10 @@ func main() {
 			fmt.Printf("%s %-60s %d  e.g. %s\n", mark, k, len(seen[k]), seen[k][0])
 		}
 	case "try":
-		us := UnitSpec{Fn: *fnKey, Mode: *mode, Locks: *locks}
+		us := UnitSpec{Fn: *fnKey, Mode: *mode, Locks: *locks, Interfere: *interfere}
+		if *interfere {
+			us.Tags = []string{"C11"}
+		}
 		r := eng.runUnit(us)
 		discharge(r.Obls, *timeout, false, *workers)
 		for _, o := range r.Obls {
